@@ -438,7 +438,8 @@ def _propose(rnd, st):
         rnd.shuffle(names)
         own = rnd.choice(names + ["none", "none"])
         lo = rnd.randint(-3, 6)
-        return (("slate", tuple(names), f, lo, lo + rnd.randint(0, 5), fbn, own), h, h, rnd.choice(others))
+        # the last element: leading initial-condition columns that the dataslate is given and that are dropped again (not part of the meaning)
+        return (("slate", tuple(names), f, lo, lo + rnd.randint(0, 5), fbn, own, rnd.choice((0, 0, 1, 2))), h, h, rnd.choice(others))
     return None
 
 
@@ -481,8 +482,16 @@ def _apply_traced(st, op, h, g, k, tmpdir, step):
         w = world(f)
         fallbacks = {fbn: 9.0 / st.scale} if fbn in names else None
         overwrites = {own: 7.0 / st.scale} if own in names else None
-        ds = Dataslate.from_databox(A, tuple(names), ir.Span(w.per(lo), w.per(hi)), fallbacks=fallbacks, overwrites=overwrites)
-        new = ds.to_databox()
+        ini = op[7] if len(op) > 7 else 0
+        if ini:
+            # the dataslate also holds `ini` initial-condition columns before the span; they are dropped and the databox is built on the base span
+            ds = Dataslate.from_databox(A, tuple(names), ir.Span(w.per(lo - ini), w.per(hi)), fallbacks=fallbacks, overwrites=overwrites,
+                                        base_columns=tuple(range(ini, ini + hi - lo + 1)), min_max_shift=(-ini, 0))
+            ds.remove_initial()
+            new = ds.to_databox(span="base")
+        else:
+            ds = Dataslate.from_databox(A, tuple(names), ir.Span(w.per(lo), w.per(hi)), fallbacks=fallbacks, overwrites=overwrites)
+            new = ds.to_databox()
         for n in new.keys():
             if isinstance(new[n], ir.Series):
                 st.number(new[n], f, lz=True)
@@ -561,7 +570,7 @@ def record_databox_trace(rnd, nsteps, tmpdir, scale):
         except Exception as ex:
             raised = repr(ex)[:300]
         obs, problem = _observe(st) if not raised else (steps[-1]["obs"] if steps else obs0, None)
-        spec_op = op[:6] if op[0] == "csv" else op       # delimiter, NaN string and the text form of the periods are not part of the meaning
+        spec_op = op[:6] if op[0] == "csv" else op[:7] if op[0] == "slate" else op       # delimiter, NaN string and the text form of the periods are not part of the meaning
         steps.append({"op": spec_op, "h": h, "g": g, "k": k, "raised": bool(raised), "obs": obs, "note": raised or "", "full": op})
         if problem or raised:
             trace["steps"] = tuple(steps)
@@ -624,7 +633,7 @@ def rerecord_databox_trace(sc, tmpdir):
         except Exception as ex:
             raised = repr(ex)[:300]
         obs, problem = _observe(st) if not raised else (steps[-1]["obs"] if steps else obs0, None)
-        steps.append({"op": op[:6] if op[0] == "csv" else op, "h": h, "g": g, "k": k, "raised": bool(raised), "obs": obs, "note": raised or "", "full": op})
+        steps.append({"op": op[:6] if op[0] == "csv" else op[:7] if op[0] == "slate" else op, "h": h, "g": g, "k": k, "raised": bool(raised), "obs": obs, "note": raised or "", "full": op})
         if problem or raised:
             break
     trace["steps"] = tuple(steps)
